@@ -130,8 +130,10 @@ T_PhaseInfo ==           \* events that only confirm a phase already taken
   /\ \/ IsEv("snap.truncated") /\ apc = "snap.truncated"
      \/ IsEv("rw.tmp_written") /\ apc = "rw.captured"
      \/ IsEv("rw.replaced") /\ apc = "rw.truncated"
-     \/ IsEv("snap.ended") /\ apc = "idle"
-     \/ IsEv("rw.ended") /\ apc = "idle"
+     \* (emitted by the requester after its endreappend command was served; with two requesters the next Begin may
+     \*  already have been served in between, so nothing is asserted about apc here)
+     \/ IsEv("snap.ended")
+     \/ IsEv("rw.ended")
      \/ IsEv("snap.reappended") \/ IsEv("rw.reappended")
      \/ IsEv("close.done") /\ wdead
   /\ Consume
